@@ -53,7 +53,7 @@ ASSUMPTIONS = [
   'such texts come from a fixed list and are stored with ApplyDocActions (as in documents written by old versions)',
 ]
 BUDGET = {'quick': dict(examples=1600, shards=16, max_seconds=40),
-          'thorough': dict(examples=24000, shards=16, max_seconds=540)}
+          'thorough': dict(examples=15000, shards=16, max_seconds=1800)}
 SHRINK_BUDGET = {'quick': 60, 'thorough': 300}
 
 TABLE_POOL = ['Students', 'Schools', 'Staff', 'Orders', 'Teams', 'Places']
